@@ -692,6 +692,43 @@ func runC03(c *checker, r *rng.R) {
 		}
 		c03Input(c, r, t, b, "mutated")
 	}
+	// exactly one bool byte outside {0,1}, wherever a bool can sit: in containers (validated lazily by
+	// the random-access decoder), in structs used as map keys / values / list elements, at any depth
+	for i := 0; i < nMut/6; i++ {
+		bl := func() *wv.V { return &wv.V{T: wv.TBool, U: uint64(r.Intn(2))} }
+		inner := []*wv.V{
+			{T: wv.TList, ET: wv.TBool, Items: []*wv.V{bl(), bl(), bl()}},
+			{T: wv.TSet, ET: wv.TBool, Items: []*wv.V{bl()}},
+			{T: wv.TMap, KT: wv.TBool, ET: wv.TI8, Items: []*wv.V{bl(), {T: wv.TI8, U: 7}}},
+			{T: wv.TMap, KT: wv.TI16, ET: wv.TBool, Items: []*wv.V{{T: wv.TI16, U: 3}, bl(), {T: wv.TI16, U: 4}, bl()}},
+			bl(),
+		}[r.Intn(5)]
+		st := func(x *wv.V) *wv.V {
+			return &wv.V{T: wv.TStruct, Fields: []wv.Field{{ID: 1, V: &wv.V{T: wv.TI32, U: uint64(i)}}, {ID: uint16(2 + r.Intn(3)), V: x}}}
+		}
+		var v *wv.V
+		switch r.Intn(7) {
+		case 0: // struct-typed map key
+			v = &wv.V{T: wv.TMap, KT: wv.TStruct, ET: wv.TI8, Items: []*wv.V{st(inner), {T: wv.TI8, U: 1}}}
+		case 1: // struct-typed map value
+			v = &wv.V{T: wv.TMap, KT: wv.TI8, ET: wv.TStruct, Items: []*wv.V{{T: wv.TI8, U: 1}, st(inner)}}
+		case 2:
+			v = &wv.V{T: wv.TList, ET: wv.TStruct, Items: []*wv.V{st(bl()), st(inner)}}
+		case 3:
+			v = &wv.V{T: wv.TSet, ET: wv.TStruct, Items: []*wv.V{st(st(inner))}}
+		case 4:
+			v = st(st(inner))
+		case 5: // container-typed map key
+			k := &wv.V{T: wv.TList, ET: wv.TBool, Items: []*wv.V{bl(), bl()}}
+			v = &wv.V{T: wv.TMap, KT: wv.TList, ET: wv.TStruct, Items: []*wv.V{k, st(inner)}}
+		default:
+			v = wv.Gen(r, wv.AllTypes[7+r.Intn(4)], wv.GenCfg{MaxDepth: 2 + r.Intn(3), MaxLen: r.Pick(1, 2, 3), MaxBin: 4}, 0)
+		}
+		if !v.PoisonBool(r) {
+			continue
+		}
+		c03Input(c, r, v.T, v.Encode(nil), "one-invalid-bool")
+	}
 	for i := 0; i < nRand; i++ {
 		b := r.Bytes(r.Intn(24))
 		if r.Chance(1, 2) && len(b) > 0 { // bias towards plausible headers
